@@ -18,6 +18,9 @@ Monitor, on the IMPLEMENTATION's observations only (previous vs. current observa
                         alive at 0 when nothing is buffered)
   localstate-missing-status-time / localstate-missing-left  LocalState (the push/pull image) lacks the status time of a
                         listed member (left members included) or a left member in LeftMembers
+  claim-not-outdated    a leave / force-leave / left-by-merge claim about the running local node, newer than its status
+                        time, was answered by no join with a STRICTLY greater Lamport time: the refutation is not newer
+                        than the claim, every other member discards it and keeps the claim (resolution by Lamport time fails)
   merge-stale-applied   same, for an entry of a push/pull merge (left member ⇒ leave at t+1, else join at t)
 -/
 namespace SerfModel.Check.C02
@@ -33,6 +36,8 @@ structure St where
   /-- monitor: for members not (yet) listed, the newest intent delivered while unlisted — (isLeave, time);
   a later intent replaces it only when strictly newer; forgotten when the node's buffered intent is reaped -/
   best : List (Name × Bool × Nat) := []
+  /-- monitor: the local node has begun leaving (Leave / Shutdown / memberlist death notice) -/
+  begun : Bool := false
   deriving Inhabited
 
 def monotone (prev cur : Obs) : Option (String × String) :=
@@ -168,8 +173,10 @@ def step (s : St) (f : List String) (impl : String) : LineOut St :=
       -- buffered-intent bookkeeping: newest delivered intent per unlisted member; forgotten when the node's buffer entry was reaped
       let best0 := (deliveredIntents prev h).foldl (updBest prev) s.best
       let best := best0.filter fun e => !((prev.intents.find? (·.1 == e.1)).isSome && (o.intents.find? (·.1 == e.1)).isNone)
-      { state := { base := { node := n', prev := o }, mlUp := mlUp, artLeave := art, best := best }, model := some out,
-        monitor := firstSome [stuck, monotone prev o, stale prev o h, staleBuffered prev o h, joinFromBuffer s.best prev o h] }
+      let begun := s.begun || beginsLeaving h
+      let outdated : Option (String × String) := (refutationFailure begun prev o h).map fun msg => ("claim-not-outdated", msg)
+      { state := { base := { node := n', prev := o }, mlUp := mlUp, artLeave := art, best := best, begun := begun }, model := some out,
+        monitor := firstSome [stuck, monotone prev o, stale prev o h, staleBuffered prev o h, joinFromBuffer s.best prev o h, outdated] }
 
 def checker : Checker := { σ := St, init := {}, step := step }
 
